@@ -216,6 +216,18 @@ func repCases() []repCase {
 			}
 		}
 	}
+	// large operands (beyond the size thresholds of pooled buffers, chunked or parallel kernels); their batch-1 feed is
+	// another geometry for the same node: what one call leaves in a recycled buffer meets the next call's layout
+	add("Conv", []hx.Attr{hx.AInts("pads", 1, 1, 1, 1)}, 1, "large-padded(2,2,48,48)", f(1, 2, 2, 48, 48), f(2, 3, 2, 3, 3), f(3, 3))
+	add("Conv", []hx.Attr{hx.AStr("auto_pad", "SAME_UPPER"), hx.AInts("strides", 2)}, 1, "large-1D-autopad(3,2,1500)", f(1, 3, 2, 1500), f(2, 2, 2, 4))
+	add("Add", nil, 1, "large-broadcast(3,70,333)+(333)", f(1, 3, 70, 333), f(2, 333))
+	add("Softmax", []hx.Attr{hx.AInt("axis", -1)}, 1, "large(2,64,530)", f(1, 2, 64, 530))
+	add("MatMul", nil, 1, "large(2,72,64)x(64,48)", f(1, 2, 72, 64), f(2, 64, 48))
+	add("Gemm", []hx.Attr{hx.AInt("transB", 1)}, 1, "large(72,64)x(48,64)T", f(1, 72, 64), f(2, 48, 64), f(3, 48))
+	add("Transpose", []hx.Attr{hx.AInts("perm", 0, 2, 1)}, 1, "large(2,90,101)", f(1, 2, 90, 101))
+	add("ReduceMax", []hx.Attr{hx.AInts("axes", 1), hx.AInt("keepdims", 0)}, 1, "large(2,300,31)", f(1, 2, 300, 31))
+	add("Concat", []hx.Attr{hx.AInt("axis", 1)}, 1, "large(2,4000)+(2,4200)", f(1, 2, 4000), f(2, 2, 4200))
+	add("Relu", nil, 1, "large(3,21851)", f(1, 3, 21851))
 	add("Reshape", nil, 1, "", f(1, 2, 3), ref.I64Vec(3, -1))
 	add("Flatten", []hx.Attr{hx.AInt("axis", 1)}, 1, "", f(1, 2, 3, 2))
 	add("Squeeze", nil, 1, "", f(1, 2, 1, 3), ref.I64Vec(1))
